@@ -415,6 +415,30 @@ def m_flat_map(it, callee, args, m):
     return LazyIter(gen())
 
 
+def m_flatten(it, callee, args, m):
+    """Iterator::flatten: items are Options (by value or by reference) or other iterables"""
+    inner = to_iter(args[0])
+
+    def gen():
+        while True:
+            x = inner.next(it)
+            if x is None:
+                return
+            tgt = x.get() if isinstance(x, Ref) else x
+            if isinstance(x, Ref) and isinstance(tgt, Enum) and tgt.variant in ("Some", "None"):
+                # &Option<T> yields &T
+                if tgt.variant == "Some":
+                    yield Ref(x.cell, x.path + (("field", 0),))
+                continue
+            sub = to_iter(x)
+            while True:
+                y = sub.next(it)
+                if y is None:
+                    break
+                yield y
+    return LazyIter(gen())
+
+
 def m_array_into_iter(it, callee, args, m):
     a = deref(args[0])
     return SeqIter([c.v for c in a.elems])
@@ -526,6 +550,223 @@ def m_sum_usize(it, callee, args, m):
     return Int(total)
 
 
+def m_sum_int(it, callee, args, m):
+    """Iterator::sum::<uN>: panics on overflow when overflow checks are on (they are in the MIR we execute)"""
+    bits = {"u8": 8, "u16": 16, "u32": 32, "u64": 64}[m.group("ty")]
+    wide = z3.BitVecVal(0, bits + 16)
+    for x in drain(to_iter(args[0]), it):
+        wide = wide + z3.ZeroExt(16, deref(x).t)
+    ok_c = z3.ULT(wide, z3.BitVecVal(1 << bits, bits + 16))
+    ok, model = it.ctx.valid(ok_c)
+    if not ok:
+        it.panics.append(("attempt to add with overflow", "Iterator::sum", model))
+        if not it.ctx.branch(ok_c):
+            raise PathEnd()
+    return Int(z3.Extract(bits - 1, 0, wide), bits, False)
+
+
+def m_exact_len(it, callee, args, m):
+    x = deref(args[0])
+    if isinstance(x, SeqIter):
+        return usize(x.hi - x.lo)
+    raise Unsupported(f"ExactSizeIterator::len of {type(x).__name__}")
+
+
+class HashObj:
+    """hashbrown / std HashMap as an association list; keys are compared structurally (forking when symbolic); iteration
+    order is unspecified in Rust, so iterating is not modelled"""
+    heap = True
+
+    def __init__(self):
+        self.entries = []
+
+
+def m_hash_new(it, callee, args, m):
+    return HashObj()
+
+
+def m_hash_get(it, callee, args, m):
+    h, key = deref(args[0]), args[1]
+    for k, cell in h.entries:
+        if val_eq(it, k, key):
+            return some(Ref(cell))
+    return NONE()
+
+
+def m_hash_contains(it, callee, args, m):
+    return z3.BoolVal(m_hash_get(it, callee, args, m).variant == "Some")
+
+
+def m_hash_insert(it, callee, args, m):
+    h, key, val = deref(args[0]), args[1], args[2]
+    for ent in h.entries:
+        if val_eq(it, ent[0], key):
+            old = ent[1].v
+            ent[1].v = val
+            return some(old)
+    h.entries.append([key, Cell(val)])
+    return NONE()
+
+
+def m_hash_keys(it, callee, args, m):
+    """HashMap::keys: Rust leaves the order unspecified; the model iterates in insertion order (one of the allowed orders)"""
+    h = deref(args[0])
+    return SeqIter([Ref(Cell(k)) for k, _c in h.entries])
+
+
+def m_hash_from_array(it, callee, args, m):
+    h = HashObj()
+    sl = as_slice(args[0])
+    for i in range(len(sl)):
+        kv = sl.vec.elems[sl.lo + i].v
+        m_hash_insert(it, callee, [Ref(Cell(h)), kv.items[0], kv.items[1]], m)
+    return h
+
+
+def m_slice_ends_with(it, callee, args, m):
+    a, b = as_slice(args[0]), as_slice(args[1])
+    if len(b) > len(a):
+        return z3.BoolVal(False)
+    off = len(a) - len(b)
+    parts = [sym_eq(a.vec.elems[a.lo + off + i].v, b.vec.elems[b.lo + i].v) for i in range(len(b))]
+    return z3.And(*parts) if parts else z3.BoolVal(True)
+
+
+def m_slice_starts_with(it, callee, args, m):
+    a, b = as_slice(args[0]), as_slice(args[1])
+    if len(b) > len(a):
+        return z3.BoolVal(False)
+    parts = [sym_eq(a.vec.elems[a.lo + i].v, b.vec.elems[b.lo + i].v) for i in range(len(b))]
+    return z3.And(*parts) if parts else z3.BoolVal(True)
+
+
+def m_explicit_panic(it, callee, args, m):
+    """panic!(), unreachable!(), unimplemented!(), assert!() failures: reaching the call on a feasible path is a panic"""
+    msg = "explicit panic"
+    if args:
+        a = deref(args[0]) if isinstance(args[0], Ref) else args[0]
+        if isinstance(a, StringObj):
+            try:
+                msg = "".join(chr(z3.simplify(c.t).as_long()) for c in a.chars)
+            except Exception:
+                pass
+    ok, model = it.ctx.valid(z3.BoolVal(False))
+    it.panics.append((msg, "call of " + callee, model))
+    raise PathEnd()
+
+
+def seq_eq_term(xs, ys):
+    if len(xs) != len(ys):
+        return z3.BoolVal(False)
+    parts = [sym_eq(x, y) for x, y in zip(xs, ys)]
+    return z3.And(*parts) if parts else z3.BoolVal(True)
+
+
+def m_str_eq(it, callee, args, m):
+    a, b = deref(args[0]), deref(args[1])
+    return seq_eq_term(a.chars, b.chars)
+
+
+def m_slice_eq(it, callee, args, m):
+    a, b = as_slice(args[0]), as_slice(args[1])
+    return seq_eq_term([a.vec.elems[a.lo + i].v for i in range(len(a))], [b.vec.elems[b.lo + i].v for i in range(len(b))])
+
+
+def m_str_join(it, callee, args, m):
+    parts, sep = as_slice(args[0]), deref(args[1])
+    out = []
+    for i in range(len(parts)):
+        if i:
+            out += [copy_val(c) for c in sep.chars]
+        out += [copy_val(c) for c in deref(parts.vec.elems[parts.lo + i].v).chars]
+    return StringObj(out)
+
+
+def m_str_to_ascii_lowercase(it, callee, args, m):
+    return StringObj([Int(ascii_lower(c), 32, False) for c in deref(args[0]).chars])
+
+
+def m_correct_capitalization(it, callee, args, m):
+    """Dictionary::get_correct_capitalization_of on a stub dictionary: unknown word, or some spelling of the same length"""
+    sl = as_slice(args[1])
+    pick = fresh_bool("dictionary-knows")
+    if not it.ctx.branch(pick):
+        return NONE()
+    _fresh[0] += 1
+    cs = []
+    for i in range(len(sl)):
+        c = z3.BitVec(f"capitalization!{_fresh[0]}_{i}", 32)
+        it.ctx.assume(z3.And(z3.ULE(c, 0x10FFFF), z3.Or(z3.ULT(c, 0xD800), z3.UGT(c, 0xDFFF))))
+        cs.append(Int(c, 32, False))
+    v = VecObj(cs)
+    return some(SliceRef(v, 0, len(cs)))
+
+
+def m_bool_then(it, callee, args, m):
+    if it.ctx.branch(args[0]):
+        return some(it.call_closure(args[1], []))
+    return NONE()
+
+
+def m_fmt_argument(it, callee, args, m):
+    return Adt("FmtArgument", [args[0]])
+
+
+def m_fmt_arguments(it, callee, args, m):
+    return Adt("FmtArguments", list(args))
+
+
+def fmt_text_of(v):
+    """the characters a Display argument renders to, when it is text (str / String / char / [char] collected) - else None"""
+    for _ in range(6):
+        if isinstance(v, Ref):
+            v = v.get()
+        else:
+            break
+    if isinstance(v, StringObj):
+        return list(v.chars)
+    if isinstance(v, Int) and v.bits == 32:
+        return [v]
+    return None
+
+
+def m_fmt_format(it, callee, args, m):
+    """format!(..) / alloc::fmt::format. With rustc's byte template (`Arguments::new(b"..", &args)`: 0xC0 = next argument with
+    default formatting, n < 0x80 = a literal of n bytes, 0 = end) and text arguments the result is the real string;
+    otherwise the text is opaque (nothing may inspect it)."""
+    fa = deref(args[0]) if args else None
+    if isinstance(fa, Adt) and fa.name == "FmtArguments" and fa.fields and isinstance(deref(fa.fields[0]), bytes):
+        tpl = deref(fa.fields[0])
+        fargs = []
+        if len(fa.fields) > 1:
+            sl = as_slice(fa.fields[1])
+            fargs = [sl.vec.elems[sl.lo + i].v for i in range(len(sl))]
+        out, i, k, ok = [], 0, 0, True
+        while i < len(tpl):
+            b = tpl[i]
+            if b == 0:
+                break
+            if b == 0xC0:
+                a = fargs[k] if k < len(fargs) else None
+                k += 1
+                txt = fmt_text_of(a.fields[0]) if isinstance(a, Adt) and a.name == "FmtArgument" and a.fields[0] is not None else None
+                if txt is None:
+                    ok = False
+                    break
+                out += [copy_val(c) for c in txt]
+                i += 1
+            elif b < 0x80:
+                lit = tpl[i + 1:i + 1 + b].decode("utf-8", errors="strict")
+                out += [Int(z3.BitVecVal(ord(ch), 32), 32, False) for ch in lit]
+                i += 1 + b
+            else:
+                ok = False
+                break
+        if ok:
+            return StringObj(out)
+    return Adt("FormattedString", list(args))
+
+
 def m_fold(it, callee, args, m):
     acc = args[1]
     for x in drain(to_iter(args[0]), it):
@@ -583,20 +824,22 @@ def m_chain(it, callee, args, m):
 def m_tuple_windows(it, callee, args, m):
     """itertools::Itertools::tuple_windows::<(T, T)>: overlapping pairs of consecutive items (items are cloned)"""
     tm = re.search(r"tuple_windows::<\((.*)\)>$", callee)
-    if not tm or len(split_top(tm.group(1))) != 2:
-        raise Unsupported("tuple_windows of arity != 2")
+    if not tm:
+        raise Unsupported("tuple_windows: unknown tuple type")
+    k = len(split_top(tm.group(1)))
     inner = to_iter(args[0])
 
     def gen():
-        prev = inner.next(it)
-        if prev is None:
-            return
+        win = []
         while True:
             cur = inner.next(it)
             if cur is None:
                 return
-            yield Tup([copy_val(prev), copy_val(cur)])
-            prev = cur
+            win.append(cur)
+            if len(win) > k:
+                win.pop(0)
+            if len(win) == k:
+                yield Tup([copy_val(x) for x in win])
     return LazyIter(gen())
 
 
@@ -1710,6 +1953,7 @@ MODELS = [
     (IT + r"::filter_map::<", m_filter_map),
     (IT + r"::zip::<", m_zip),
     (IT + r"::flat_map::<", m_flat_map),
+    (IT + r"::flatten$", m_flatten),
     (r"^<\[.*; \d+\] as IntoIterator>::into_iter$", m_array_into_iter),
     (r"^<.* as Itertools>::minmax$", m_minmax),
     (IT + r"::skip$", m_skip),
@@ -1719,6 +1963,39 @@ MODELS = [
     (IT + r"::skip_while::<", m_skip_while),
     (IT + r"::nth$", m_nth),
     (IT + r"::sum::<usize>$", m_sum_usize),
+    (r"^<(hashbrown::|std::collections::)?HashMap<.*> as Default>::default$|^(hashbrown::)?HashMap::<.*>::new$", m_hash_new),
+    (r"^(hashbrown::)?HashMap::<.*>::(get|get_mut)::<", m_hash_get),
+    (r"^(hashbrown::)?HashMap::<.*>::contains_key::<", m_hash_contains),
+    (r"^(hashbrown::)?HashMap::<.*>::insert$", m_hash_insert),
+    (r"^core::bool::<impl bool>::then::<", m_bool_then),
+    (r"^SmallVec::<.*>::extend_from_slice$", m_extend_from_slice),
+    (r"^<(std::string::)?String as Default>::default$|^(std::string::)?String::new$|^(std::string::)?String::with_capacity$", lambda it, c, a, m: StringObj([])),
+    (r"^(std::string::)?String::push$", lambda it, c, a, m: (deref(a[0]).chars.append(copy_val(a[1])), ())[1]),
+    (r"^(std::string::)?String::push_str$", lambda it, c, a, m: (deref(a[0]).chars.extend(copy_val(x) for x in deref(a[1]).chars), ())[1]),
+    (r"^<&?str as PartialEq(<&?str>)?>::(eq)$|^<(std::string::)?String as PartialEq(<&?str>|<(std::string::)?String>)?>::eq$|^<&?str as PartialEq<(std::string::)?String>>::eq$", m_str_eq),
+    (r"^<&?str as PartialEq(<&?str>)?>::ne$|^<(std::string::)?String as PartialEq(<&?str>|<(std::string::)?String>)?>::ne$", lambda it, c, a, m: z3.Not(m_str_eq(it, c, a, m))),
+    (r"^<Cow<'_, \[.*\]> as PartialEq(<.*>)?>::eq$|^<&?\[.*\] as PartialEq<Cow<'_, \[.*\]>>>::eq$|^<SmallVec<.*> as PartialEq>::eq$|^<Vec<char> as PartialEq(<.*>)?>::eq$|^<&?\[char\] as PartialEq(<&?\[char\]>)?>::eq$", m_slice_eq),
+    (r"^(std|core|alloc)::slice::<impl \[&str\]>::join::<&str>$", m_str_join),
+    (r"^(std|core|alloc)::str::<impl str>::to_ascii_lowercase$", m_str_to_ascii_lowercase),
+    (r"^SmallVec::<.*>::clear$", m_vec_clear),
+    (r"^<(usize|u8|u32|u64) as Default>::default$", lambda it, c, a, m: Int(z3.BitVecVal(0, {"usize": 64, "u64": 64, "u32": 32, "u8": 8}[m.group(1)]), {"usize": 64, "u64": 64, "u32": 32, "u8": 8}[m.group(1)], False)),
+    (r"^(core::panicking::|std::rt::)?(panic|panic_fmt|panic_display|unreachable_display|panic_explicit|begin_panic|panic_nounwind)(::<.*>)?$", m_explicit_panic),
+    (r"^<str as ToOwned>::to_owned$|^<str as Into<String>>::into$|^<String as From<&str>>::from$", m_string_to_string),
+    (r"^core::str::<impl str>::eq_ignore_ascii_case$", lambda it, c, a, m: (lambda x, y: z3.BoolVal(False) if len(x.chars) != len(y.chars) else z3.And(*[ascii_lower(p) == ascii_lower(q) for p, q in zip(x.chars, y.chars)]) if x.chars else z3.BoolVal(True))(deref(a[0]), deref(a[1]))),
+    (r"^(std::string::)?String::as_str$|^(std::string::)?String::as_mut_str$", m_string_deref),
+    (r"^<(std::string::)?String as FromIterator<&?char>>::from_iter::<", m_collect_string),
+    (r"^<&?\[(char|u8|usize)\] as PartialEq<&?\[(char|u8|usize)(; \d+)?\]>>::eq$|^<\[(char|u8|usize); \d+\] as PartialEq<&?\[(char|u8|usize)\]>>::eq$", lambda it, c, a, m: z3.BoolVal(val_eq(it, as_slice(a[0]), as_slice(a[1])))),
+    (r"^(hashbrown::)?HashMap::<.*>::keys$", m_hash_keys),
+    (r"^<(hashbrown::)?HashMap<.*> as From<\[.*; \d+\]>>::from$", m_hash_from_array),
+    (r"^core::slice::<impl \[.*\]>::ends_with$", m_slice_ends_with),
+    (r"^core::slice::<impl \[.*\]>::starts_with$", m_slice_starts_with),
+    (r"^core::fmt::rt::Argument::<'_>::new_(display|debug)::<", m_fmt_argument),
+    (r"^(core::fmt::|std::fmt::)?Arguments::<'_>::new(_v1|_const|_v1_formatted)?(::<.*>)?$", m_fmt_arguments),
+    (r"^(core::hint::|std::hint::)?must_use::<", lambda it, c, a, m: a[0]),
+    (r"^<Box<.*> as AsRef<.*>>::as_ref$", lambda it, c, a, m: a[0].get() if isinstance(a[0], Ref) and isinstance(a[0].get(), Ref) else a[0]),
+    (r"^(alloc|std)::fmt::format$|^format$", m_fmt_format),
+    (r"^<(std::)?slice::Iter(Mut)?<'_, .*> as ExactSizeIterator>::len$", m_exact_len),
+    (IT + r"::sum::<(?P<ty>u8|u16|u32|u64)>$", m_sum_int),
     (IT + r"::fold::<", m_fold),
     (IT + r"::max$", m_iter_max),
     (IT + r"::min$", m_iter_min),
